@@ -882,6 +882,69 @@ Section PackProofs.
     congruence.
   Qed.
 
+  (* which error a rejected call returns (the order of the checks in the source) *)
+  Definition reject_err (f : fn) (at_ : str) (o : opts) : err :=
+    match f with
+    | FV10 => if is_some (o_subject o) then EUnsupported else EInvalidMediaType
+    | FV11 => if is_empty at_ && config_is_empty_or_nil o then EMissingArtifactType else EInvalidMediaType
+    | _ => EUnsupported
+    end.
+
+  Theorem reject_exact f tc fa s at_ o now :
+    must_reject f at_ o = true ->
+    pack marshal H f tc fa s at_ o now = (s, Err (reject_err f at_ o)).
+  Proof.
+    intro MR. destruct f; try discriminate; try reflexivity.
+    - (* v1.0 *)
+      unfold pack, pack_v1_0, reject_err. unfold must_reject, invalid_config in MR.
+      destruct o as [subj lay ann0 cfg cann]. cbn [o_subject o_config o_config_ann o_ann o_layers] in *.
+      destruct subj as [sj|]; [reflexivity|]. cbn [is_some orb] in *.
+      destruct cfg as [c|]; cbn [is_some negb andb orb] in *.
+      + rewrite orb_false_r in MR. apply negb_true_iff in MR. now rewrite MR.
+      + destruct at_ as [|a0 at_]; cbn [is_empty negb andb] in *; [discriminate|].
+        apply negb_true_iff in MR. now rewrite MR.
+    - (* v1.1 *)
+      unfold pack, pack_v1_1, reject_err. unfold must_reject in MR.
+      destruct (is_empty at_ && config_is_empty_or_nil o) eqn:G1; [reflexivity|].
+      destruct (negb (is_empty at_) && negb (valid_media_type at_)) eqn:G2; [reflexivity|].
+      cbn [orb] in MR. unfold pack_v1_1_body. unfold invalid_config in MR.
+      destruct (o_config o) as [c|]; [|discriminate]. apply negb_true_iff in MR. now rewrite MR.
+  Qed.
+
+  (* Progress: on a target that does not fail (no injected fault, not a file store, which may refuse a
+     taken name) a call is classified by its input alone -- rejected, malformed created, or success; a
+     valid input always succeeds. *)
+  Theorem healthy_target_classification f tc s at_ o now s' r :
+    t_key tc <> KFile ->
+    pack marshal H f tc None s at_ o now = (s', r) ->
+    (must_reject f at_ o = true /\ exists e, r = Err e /\ validation_err e /\ s' = s) \/
+    (must_reject f at_ o = false /\ ensure_created (o_ann o) (created_key f) now = None /\ r = Err EInvalidDateTime) \/
+    (must_reject f at_ o = false /\
+     exists ann, ensure_created (o_ann o) (created_key f) now = Some ann /\
+                 r = Ok (result_desc f (requested_manifest f at_ o ann)) (requested_manifest f at_ o ann)).
+  Proof.
+    intros NF P. apply pack_outcome in P.
+    inversion P as [e MR V | s2 evs MR EC S B | s2 evs MR F S B | s2 evs ann m MR F EC Em S B
+                    | s2 evs ann m MR EC Em S B St I]; subst.
+    - left. split; auto. exists e. auto.
+    - right. left. auto.
+    - destruct F as [F | F]; congruence.
+    - destruct F as [F | F]; congruence.
+    - right. right. split; auto. exists ann. auto.
+  Qed.
+
+  Corollary valid_input_succeeds f tc s at_ o now ann s' r :
+    t_key tc <> KFile ->
+    must_reject f at_ o = false ->
+    ensure_created (o_ann o) (created_key f) now = Some ann ->
+    pack marshal H f tc None s at_ o now = (s', r) ->
+    r = Ok (result_desc f (requested_manifest f at_ o ann)) (requested_manifest f at_ o ann).
+  Proof.
+    intros NF MR EC P.
+    destruct (healthy_target_classification _ _ _ _ _ _ _ _ NF P) as [(MR' & _) | [(_ & EC' & _) | (_ & ann' & EC' & ->)]];
+      try congruence.
+  Qed.
+
   (* the same for any state in which the result and the invented blobs are already present (e.g. after
      any number of other calls): the call finds everything there, returns the same, stores nothing *)
   Theorem settled_call_changes_nothing f tc s at_ o now ann s2 r2 :
